@@ -64,10 +64,6 @@ PROPS["C15"] = {
 
 # whole properties not claimed (reason); clause-level exclusions live in PROPS[..]["not_decided"]
 NOT_APPLICABLE = {
-    "C11": ("PCT scheduler: priorities live in a HashMap<TaskId, usize> pre-filled with 16 entries and every decision goes through shuffle / sample / "
-            "gen_range (rejection loops) on a 128-bit PCG. Under Kani the map alone exceeds the memory cap (no result in 25 min at 40 GB); the "
-            "HashMap/iterator idioms are outside Verus' executable subset, and rewriting them would be a hand-written model (a different technique "
-            "family). The bug-depth detection-probability clause is distributional and no contract over one call expresses it. See DESIGN.md 9.3."),
     "C19": ("tokio-compatible primitives: shuttle-tokio-impl-inner links the real tokio crate; its mpsc / Notify / watch state machines are async fns "
             "driven by an executor over Arc<Mutex<..>> + Waker tables. No Kani harness reached a result within the time / memory caps (the "
             "BatchSemaphore-only harnesses of C18 already need 1-15 min each) and async/await bodies are outside Verus' subset. See DESIGN.md 9.3."),
@@ -606,10 +602,16 @@ PROPS["C07"]["assumptions"] += ["A-key: StorageKey's derived Hash/Eq obey the Ha
                                 "A-std: vstd's specifications of HashMap / VecDeque"]
 PROPS["C07"]["not_decided"] = ["thread_fn with thread-local values (destructors before publication) and LocalKey::try_with (HashMap under CBMC: no result in 25 min)",
                                "closure runs exactly once, scope(), names and ids reported inside a thread (coroutines)"]
-PROPS["C14"]["verus_units"] = ["storage"]
-PROPS["C14"]["not_decided"] = ["ExecutionState::cleanup() (order of draining tasks, storage destructors and clearing labels/tags): needs coroutines; "
-                               "seeded mutant C14-labels-cleared-too-early is NOT caught", "recycling of coroutine stacks"]
-PROPS["C14"]["scope"] = "a new ExecutionState is fresh and CurrentSchedule::init replaces the recorded schedule (K); global storage is drained in insertion order, each slot once (V, StorageMap)"
+PROPS["C14"]["verus_units"] = ["storage", "cleanup"]
+PROPS["C14"]["not_decided"] = ["that dropping a task's continuation really unwinds the task's stack and that user destructors leave the fields cleanup() "
+                               "manages alone (coroutines: assumed contract of verif_drop_task_stack in the cleanup unit)", "recycling of coroutine stacks"]
+PROPS["C14"]["scope"] = ("a new ExecutionState is fresh and CurrentSchedule::init replaces the recorded schedule (K); global storage is drained in insertion "
+                         "order, each slot once (V, StorageMap); ExecutionState::cleanup() on the extracted real body, for any number of tasks and slots: "
+                         "afterwards no task, no live id, no storage slot, no label and no tag survives, and the destructor log is exactly: every task stack "
+                         "in task order, then every storage slot oldest first, each once, each run while in_cleanup is set and labels/tags are not yet cleared (V)")
+PROPS["C14"]["assumptions"] = PROPS["C14"].get("assumptions", []) + [
+    "cleanup unit: ExecutionState behind Self::with, the thread-locals LABELS / TASK_ID_TO_TAGS and the destructor runs are threaded through an explicit "
+    "World value (ghost event log); StorageMap is represented by its live slots in initialisation order (its pop contract is proved in the storage unit)"]
 
 # C02: every contracted operation asserts `switches() == 1` before its effect; reuse the complete ones here
 PROPS["C02"]["kani"] += [ATOM[0], LOCKS[0], LOCKS[2]] + DROP_C02 + CVH + [YIELD_NOW]
@@ -667,4 +669,71 @@ PROPS["C20"] = {
                     "overlay adds a path dependency on shuttle-engine to parking_lot_impl's Cargo.toml in the scratch copy (harness helpers)"],
     "not_decided": ["DashMap/DashSet linearizability; rand wrapper; lazy_static; parking_lot Mutex; blocking lock_*/upgrade paths (via C18 only)",
                     "serde Deserialize of the deterministic collections (builds the inner map with the default hasher; noted by a sub-agent, not examined)"],
+}
+
+
+# ---------------- lane V units added in the last round (Env/World-threaded extraction of the real bodies) ----------------
+BARRIER_ASSUME = ["barrier unit: the RefCell'd BarrierState, the tasks behind ExecutionState::with and thread::switch() are threaded through an explicit World; "
+                  "thread::switch() havocs the world under the barrier's rely condition (World::switch: the invariant holds again when I resume; a task "
+                  "that blocked itself as a member of a generation resumes only after the epoch moved on, which is the completing arrival's proved postcondition)",
+                  "barrier unit: std HashSet by its documented contract (len / insert / remove / contains / drain: external_body stand-in); VectorClock "
+                  "values opaque with update/increment as uninterpreted functions (their meaning is proved in the clock unit)",
+                  "A-wrap: the barrier's generation counter stays below u64::MAX"]
+PROPS["C05"]["verus_units"] = PROPS["C05"].get("verus_units", []) + ["barrier"]
+PROPS["C05"]["assumptions"] += BARRIER_ASSUME
+PROPS["C05"]["not_decided"] = ["Condvar wait/notify_one: the harnesses (overlay condvar.rs.append.rs) need > 37 GB / end in solver errors and were withdrawn, so "
+                               "seeded mutant C05-condvar-epoch-front is NOT caught",
+                               "Once (closure under a Mutex across coroutine switches): not brought under contract",
+                               "`always does release a waiter` as liveness (the safety form is decided: the arrival that completes a barrier generation makes every member runnable)"]
+PROPS["C05"]["scope"] += ("; Barrier::wait on the extracted real body for EVERY bound, waiter set and epoch (V, unbounded): an early arrival registers, blocks and "
+                          "only then reaches its choice point, and returns only after its generation was released; the completing arrival releases exactly "
+                          "the group (waiters + itself), nobody else, empties the set, moves the epoch on and leaves exactly one leader token per generation, "
+                          "taken by exactly one task")
+PROPS["C02"]["verus_units"] = PROPS["C02"].get("verus_units", []) + ["barrier"]
+PROPS["C02"]["assumptions"] += BARRIER_ASSUME[:1]
+PROPS["C02"]["not_decided"] = ["the meta-theorem `every sequentially consistent outcome is produced by some schedule` (exists over schedules, forall programs)",
+                               "operations not under contract: Once, spawn, Condvar"]
+PROPS["C02"]["scope"] += ("; Barrier::wait (V, unbounded): the choice point before an arrival is omitted only when the arrival blocks; an arrival that completes "
+                          "the group is preceded by a choice point at which nothing has happened yet, and no choice point separates registering from blocking")
+PROPS["C15"]["verus_units"] = PROPS["C15"].get("verus_units", []) + ["barrier", "permits"]
+PROPS["C15"]["assumptions"] += BARRIER_ASSUME[1:2]
+PROPS["C15"]["scope"] += ("; barrier edge (V): every arrival ticks its own clock and is absorbed into the barrier's clock, every released member leaves with "
+                          "its ticked clock joined with the barrier's clock (so departures dominate all arrivals); semaphore edge (V, permits unit): the clock "
+                          "an acquire returns is the join of the clocks of exactly the release batches it consumes, oldest first")
+PROPS["C15"]["not_decided"] = ["the per-primitive edges in mutex/mpsc/condvar/once/atomics/spawn/join (barrier and semaphore batches are decided); seeded mutant "
+                               "C15-mpsc-recv-clock (order of two statements in recv_internal) is NOT caught",
+                               "replay restricted to a target clock"]
+PROPS["C18"]["verus_units"] = PROPS["C18"].get("verus_units", []) + ["permits"]
+PROPS["C18"]["scope"] += ("; PermitsAvailable::{const_new, available, init_permit_clocks, acquire, release} on the extracted real bodies for queues of ANY length "
+                          "(V, unbounded): acquire succeeds exactly when enough permits are available, takes them from the oldest batches first, failure "
+                          "leaves the state unchanged, sum of batch sizes == num_available is preserved")
+PROPS["C16"]["verus_units"] = PROPS["C16"].get("verus_units", []) + ["encoder"]
+PROPS["C16"]["scope"] += ("; the real serialize_schedule body for every schedule (all seeds, step sequences, id widths; V, unbounded) satisfies "
+                          "spec_deserialize(result) == Some(schedule) over the decoder unit's own specification function -- with the decoder unit's theorem "
+                          "(deserialize_schedule == spec_deserialize) this is the round trip, also for re-wrapped / whitespace-padded text (L: theorem_roundtrip)")
+PROPS["C16"]["assumptions"] += ["encoder unit: bitvec set/store/as_raw_slice, hex::encode, the line-wrapping chain, usize::leading_zeros and the varint writer as "
+                                "assumed contracts (external_body / axioms; the varint round trip itself is PROVED in lane K); the same spec_bit / spec_load "
+                                "functions describe the BitVec written and the BitSlice read; A-mem: steps.len() * 65 <= usize::MAX / 8"]
+PROPS["C16"]["not_decided"] = ["schedules beyond the A-mem bound (steps.len() * 65 > usize::MAX / 8: bitvec refuses them)",
+                               "the library contracts assumed for bitvec / hex (listed under assumptions)"]
+PROPS["C11"] = {
+    "scope": "PctScheduler::{new_execution, next_task} on the extracted real bodies for every number of tasks, depth and step count (V, unbounded): representation "
+             "invariant (priority keys exactly 0..len, values pairwise distinct and < next_priority; change points <= depth-1, distinct, each in [1, max_steps)); "
+             "new_execution returns None exactly when the budget is used up, otherwise counts one iteration and from the second iteration on re-draws a "
+             "permutation of the priorities and min(depth-1, max_steps-1) distinct change points in [1, max_steps); next_task returns the offered task of "
+             "strictly minimal priority value in the final map; a demotion happens exactly when more than one task is offered and (the step is a change point "
+             "or the task yields), hits only `current`, and puts it below everybody; with no new task ids nothing else changes; steps / max_steps advance "
+             "exactly on multi-choice decisions; L: at most depth-1 steps of an execution are change points",
+    "verus_units": ["pct"],
+    "kani": [],
+    "overlay_files": [],
+    "assumptions": ["A-key: TaskId is a usize-like HashMap key obeying vstd's key model (the verified text uses a usize key)",
+                    "A-rng (assumed contracts, external_body): gen_range(a..b) in [a, b); shuffle returns a permutation of its input; "
+                    "rand::seq::index::sample(_, length, amount) returns `amount` distinct values < length; RandomDataSource::reinitialize unconstrained",
+                    "A-wrap: steps, next_priority and the largest offered id stay below usize::MAX (stated as requires)",
+                    "documented panic as precondition: from the second iteration on max_steps > 0 (`test closure did not exercise any concurrency`)"],
+    "not_decided": ["the detection-probability bound 1/(n*k^(d-1)) and uniformity of the random draws (distributional; no contract over one call expresses them)",
+                    "`deterministically for a given seed` beyond the frame clauses (the rng is opaque in the verified text; seeding is covered for the shared "
+                    "data source under C10)",
+                    "the composition of the per-call contracts over a whole run"],
 }
